@@ -40,6 +40,7 @@ type SpecEnv struct {
 	inOld    bool
 	ssaPkg   *ssa.Package
 	qdepth   int
+	pol      int // +1: the expression is assumed (positive position), -1: negative, 0: unknown/both
 }
 
 // loaded records the heap invariant for a reference-typed value read from the heap by a specification
@@ -165,6 +166,22 @@ func (env *SpecEnv) eval(e *SExpr) SVal {
 	case "bin":
 		return env.binary(e)
 	case "forall", "exists":
+		if e.Op == "exists" && env.pol > 0 && env.qdepth == 0 && vc != nil {
+			// an assumed existential: introduce witnesses (skolem constants)
+			ne := env.child()
+			for _, b := range e.Binders {
+				srt, gt := env.binderSort(b.Type)
+				c := vc.declFresh("sk!"+b.Name, srt)
+				ne.names[b.Name] = SVal{T: c, GoT: gt}
+				if vc.mode == ModeMath && gt != nil && b.Type != "int" {
+					if bits, signed, ok := intInfo(gt); ok {
+						lo, hi := intRange(bits, signed)
+						vc.assumeGlobal(mk(fmt.Sprintf("(and (<= %s %s) (<= %s %s))", lo.S, c.S, c.S, hi.S), sortBool))
+					}
+				}
+			}
+			return ne.eval(e.Args[0])
+		}
 		ne := env.child()
 		ne.qdepth = env.qdepth + 1
 		var bs []string
@@ -616,6 +633,12 @@ func (env *SpecEnv) sliceExpr(e *SExpr) SVal {
 
 func (env *SpecEnv) unary(e *SExpr) SVal {
 	vc := env.vc
+	if e.Name == "!" {
+		ne := *env
+		ne.pol = -env.pol
+		x := ne.eval(e.Args[0])
+		return SVal{T: tNot(x.T), GoT: types.Typ[types.Bool]}
+	}
 	x := env.eval(e.Args[0])
 	switch e.Name {
 	case "!":
@@ -726,7 +749,18 @@ func (env *SpecEnv) binary(e *SExpr) SVal {
 	op := e.Name
 	switch op {
 	case "&&", "||", "==>", "<==>":
-		a, b := env.eval(e.Args[0]), env.eval(e.Args[1])
+		le, re := env, env
+		switch op {
+		case "==>":
+			l2 := *env
+			l2.pol = -env.pol
+			le = &l2
+		case "<==>":
+			l2 := *env
+			l2.pol = 0
+			le, re = &l2, &l2
+		}
+		a, b := le.eval(e.Args[0]), re.eval(e.Args[1])
 		if a.T.T == nil || b.T.T == nil || a.T.T.K != SBool || b.T.T.K != SBool {
 			env.fail("%s needs boolean operands in %s", op, e)
 		}
@@ -1182,6 +1216,14 @@ func (env *SpecEnv) callExpr(e *SExpr) SVal {
 			cs = append(cs, b.T)
 		}
 		return SVal{T: tAnd(cs...)}
+	case "decval", "decvalid":
+		// decval(s): exact rational value of the decimal numeral s; decvalid(s): s is a valid numeral
+		x := env.eval(e.Args[0])
+		vc.needDecVal, vc.needStr = true, true
+		if name == "decval" {
+			return SVal{T: vc.decVal(x.T, "val")}
+		}
+		return SVal{T: vc.decVal(x.T, "valid")}
 	case "ghost":
 		if len(e.Args) != 1 || e.Args[0].Op != "id" {
 			env.fail("ghost(NAME)")
